@@ -24,7 +24,7 @@ static const char *hostile_name[] = { "input_to_ok", "input_to_bad", "get_char_o
   "snoop", "destruct_self", "destruct_self0", "destruct_other", "destruct_other0", "remove_call_out", "hb_off", "ed" };
 #define NHOSTILE ((int) (sizeof hostile_name / sizeof hostile_name[0]))
 
-typedef struct { int kind, pos, nth, every, hfail, console; const char *hostile; int hret; } plan_t;
+typedef struct { int kind, pos, nth, every, hfail, console; const char *hostile; int hret; const char *kind2; int nth2; } plan_t;
 static plan_t plans[2048];
 static int nplans;
 static plan_t P;
@@ -33,7 +33,7 @@ static void add_plan (int kind, int pos, int nth, int every, int hfail, int cons
   if (nplans >= 2048) return;
   plan_t *p = &plans[nplans++];
   p->kind = kind; p->pos = pos; p->nth = nth; p->every = every; p->hfail = hfail; p->console = console;
-  p->hostile = hostile; p->hret = hret;
+  p->hostile = hostile; p->hret = hret; p->kind2 = ""; p->nth2 = 0;
 }
 
 static void build_plans (void) {
@@ -54,7 +54,7 @@ static void build_plans (void) {
           if (!(nths & (1 << (nth - 1)))) continue;
           for (int ev = 0; ev < 2; ev++) {
             if (!(everys & (1 << ev))) continue;
-            if (k == K_HB || k == K_CO) { for (int pos = 0; pos < 3; pos++) add_plan (k, pos, nth, ev, hf, con, "", 1); }
+            if (k == K_HB || k == K_CO || k == K_RESET || k == K_CLEANUP) { for (int pos = 0; pos < 3; pos++) add_plan (k, pos, nth, ev, hf, con, "", 1); }
             else add_plan (k, -1, nth, ev, hf, con, k == K_INPUTTO ? "input_to_ok" : "", 1);
           }
         }
@@ -68,6 +68,21 @@ static void build_plans (void) {
       size_t l = strlen (base);
       if (base[l - 1] == '0') { base[l - 1] = 0; r = 0; }
       add_plan (K_NONE, -1, 1, 0, 0, con, strdup (base), r);
+    }
+    /* two faults within one tick interval with a mudlib action in between: heart-beat object `pos` fails (once, at the start-up
+     * tick or at the first tick of the loop); the verb `act` then switches the lost heart beats back on / destructs that object;
+     * then another task raises: the same `act` after the action (verb_end@1), the next `act` (verb@2), the next logon (logon@2) */
+    long hb2 = vx_opt_long ("hb2", 3);          /* bit 0: nth 1, bit 1: nth 2; 0 = family off */
+    long hb2full = vx_opt_long ("hb2-full", 1);   /* 0: second fault in {verb_end@1, verb@2} only */
+    static const char *op2[2] = { "hb_reenable", "hb_destruct" };
+    static const char *k2[3] = { "verb_end", "verb", "logon" }; static const int n2[3] = { 1, 2, 2 };
+    long hb2modes = vx_opt_long ("hb2-modes", 3);
+    for (int nth = 1; nth <= 2; nth++) {
+      if (!(hb2 & (1 << (nth - 1))) || !(hb2modes & (1 << con))) continue;
+      for (int pos = 0; pos < 3; pos++) for (int o = 0; o < 2; o++) for (int j = 0; j < (hb2full ? 3 : 2); j++) {
+        add_plan (K_HB, pos, nth, 0, 0, con, op2[o], 1);
+        plans[nplans - 1].kind2 = k2[j]; plans[nplans - 1].nth2 = n2[j];
+      }
     }
   }
 }
@@ -100,21 +115,24 @@ static char cyc_injected_names[8][64]; static int cyc_ninj_names;
 static char cyc_hb[16][64]; static int cyc_nhb;           /* who beat in this cycle: "hb 0", "uhb /c09/user#3" */
 static int co_fired[3];
 static int ep_exempt_n; static char ep_exempt[8][64];
-static int hb_raised[3], last_hb_id = -1, hb0_off;
+static int hb_raised[3], last_hb_id = -1, hb0_off, hb_gone[3];
+static int cyc_hb_inject, cyc_hb_off_lines;      /* per cycle: heart-beat errors injected / "heart beat ... turned off" lines of the driver */
+static int cyc_reset[3], cyc_cleanup[3];
 static object_t *hb_ob[3];
 
 /* finding keys of the service oracles name the class of plan under which they fired */
 static const char *plan_tag (void) {
-  static char t[48];
-  if (P.kind != K_NONE) snprintf (t, sizeof t, "after-%s-error", kind_name[P.kind]);
+  static char t[96];
+  if (P.nth2) snprintf (t, sizeof t, "after-heart_beat-error+%s+%s-error", P.hostile, P.kind2);
+  else if (P.kind != K_NONE) snprintf (t, sizeof t, "after-%s-error", kind_name[P.kind]);
   else if (P.hostile[0]) snprintf (t, sizeof t, "after-%s%s", P.hostile, P.hret ? "" : "-ret0");
   else snprintf (t, sizeof t, "no-fault");
   return t;
 }
 static char *keyf (const char *base) {
-  static char k[4][120]; static int i;
+  static char k[4][160]; static int i;
   char *b = k[i++ & 3];
-  snprintf (b, 120, "%s:%s", base, plan_tag ());
+  snprintf (b, 160, "%s:%s", base, plan_tag ());
   return b;
 }
 static void fail_hist (const char *key, const char *fmt, ...) {
@@ -131,16 +149,21 @@ static void on_line (const char *l) {
     if (!strcmp (a, "inject")) {
       cyc_inject++;
       if (cyc_ninj_names < 8) snprintf (cyc_injected_names[cyc_ninj_names++], 64, "%s", c);
-      if (!strcmp (b, "heart_beat") && last_hb_id >= 0 && last_hb_id < 3) hb_raised[last_hb_id] = 1;
+      if (!strcmp (b, "heart_beat")) { cyc_hb_inject++; if (last_hb_id >= 0 && last_hb_id < 3) hb_raised[last_hb_id] = 1; }
     } else if (!strcmp (a, "logon")) { ob_rec (b)->setup = 1; }
     else if (!strcmp (a, "exec")) { ob_rec (b)->setup = 1; }
     else if (!strcmp (a, "gone")) { ob_rec (b)->gone = 1; }
     else if (!strcmp (a, "hboff")) { ob_rec (b)->hboff = 1; if (hb_ob[0] && !strcmp (b + 1, hb_ob[0]->name)) hb0_off = 1; }
     else if (!strcmp (a, "hb")) { last_hb_id = atoi (b); if (cyc_nhb < 16) snprintf (cyc_hb[cyc_nhb++], 64, "hb%s", b); }
     else if (!strcmp (a, "uhb")) { if (cyc_nhb < 16) snprintf (cyc_hb[cyc_nhb++], 64, "%s", b); }
+    else if (!strcmp (a, "hbon")) { int k = atoi (b); if (k >= 0 && k < 3) hb_raised[k] = 0; }      /* the mudlib switched it back on */
+    else if (!strcmp (a, "hbgone")) { int k = atoi (b); if (k >= 0 && k < 3) hb_gone[k] = 1; }
+    else if (!strcmp (a, "reset")) { int k = atoi (b); if (k >= 0 && k < 3) cyc_reset[k]++; }
+    else if (!strcmp (a, "clean_up")) { int k = atoi (b); if (k >= 0 && k < 3) cyc_cleanup[k]++; }
     else if (!strcmp (a, "co")) { int k = atoi (b); if (k >= 0 && k < 3) co_fired[k]++; }
     return;
   }
+  if (strstr (l, "----- heart beat in ")) cyc_hb_off_lines++;
   if (strstr (l, "error in mudlib error handler")) cyc_report_log++;
   if (strstr (l, "New error occured while generating error trace")) cyc_report_log++;
 }
@@ -169,7 +192,19 @@ static int name_in (const char *n, char list[][64], int cnt) {
 
 static void end_of_cycle (void) {
   cyc_inject = cyc_report_master = cyc_report_log = cyc_other_err = 0; cyc_ninj_names = 0; cyc_nhb = 0;
+  cyc_hb_inject = cyc_hb_off_lines = 0; memset (cyc_reset, 0, sizeof cyc_reset); memset (cyc_cleanup, 0, sizeof cyc_cleanup);
   nl_drain_log (on_line);
+  /* only a failing heart beat is switched off: one "turned off" report per heart-beat error, none for any other error */
+  if (cyc_hb_off_lines > cyc_hb_inject)
+    fail_hist (keyf ("C09:heart-beat-switched-off-without-heart-beat-error"), "the driver reported %d heart beat(s) turned off in a cycle with %d heart-beat error(s)", cyc_hb_off_lines, cyc_hb_inject);
+  /* the periodic sweep goes on with the other due objects: the three reset objects (and the three clean_up objects) are always due together */
+  {
+    int nr = (cyc_reset[0] > 0) + (cyc_reset[1] > 0) + (cyc_reset[2] > 0), nc = (cyc_cleanup[0] > 0) + (cyc_cleanup[1] > 0) + (cyc_cleanup[2] > 0);
+    if (nr == 1 || nr == 2) fail_hist (keyf ("C09:reset-sweep-incomplete"), "reset() was called in %d of the 3 due objects in this sweep (calls: %d,%d,%d)", nr, cyc_reset[0], cyc_reset[1], cyc_reset[2]);
+    if (nc == 1 || nc == 2) fail_hist (keyf ("C09:clean_up-sweep-incomplete"), "clean_up() was called in %d of the 3 due objects in this sweep (calls: %d,%d,%d)", nc, cyc_cleanup[0], cyc_cleanup[1], cyc_cleanup[2]);
+    for (int k = 0; k < 3; k++) if (cyc_reset[k] > 1 || cyc_cleanup[k] > 1) fail_hist (keyf ("C09:sweep-called-object-twice"), "object %d got reset() %d times / clean_up() %d times in one sweep", k, cyc_reset[k], cyc_cleanup[k]);
+    if (nr == 3 || nc == 3) vx_count (2, 1);
+  }
   fetch_master_errors ();
   vx_scan_now ();
   if (cyc_inject > cyc_report_master + cyc_report_log)
@@ -431,6 +466,7 @@ static int co_left0[3];
 static void check_last_tick (void) {
   /* called at the wait after the last epilogue tick: cyc_hb holds who was called in that tick */
   for (int k = 0; k < 3; k++) {
+    if (hb_gone[k]) continue;     /* destructed by the mudlib */
     char tag[16]; snprintf (tag, sizeof tag, "hb%d", k);
     int beat = name_in (tag, cyc_hb, cyc_nhb);
     if (hb_raised[k] && beat) fail_hist ("C09:failed-heart-beat-still-called", "heart-beat object %d raised an error earlier but was called again in the last tick", k);
@@ -494,6 +530,7 @@ static void body (void) {
   object_t *po = find_object_by_name ("/c09/plan");
   push_str (kind_name[P.kind]); push_number (P.pos); push_number (P.nth); push_number (P.every);
   hx_apply (po, "set_plan", 4);
+  if (P.nth2) { push_str (P.kind2); push_number (P.nth2); hx_apply (po, "set_plan2", 2); vx_obs ("  second fault: %s at execution %d", P.kind2, P.nth2); }
   push_str (P.hostile); push_number (P.hret);
   hx_apply (po, "set_hostile", 2);
   if (P.kind == K_RESET || P.kind == K_CLEANUP) { push_number (5000); hx_apply (po, "set_period", 1); }
@@ -546,5 +583,6 @@ int main (int argc, char **argv) {
   nl_warm_symbolizer ();
   vx_count_name (0, "histories_completed");
   vx_count_name (1, "errors_injected");
+  vx_count_name (2, "complete_reset_or_clean_up_sweeps");
   return vx_run (argc, argv, body);
 }
